@@ -608,6 +608,11 @@ def check_case(col, inp, L, R, lp, rp, inidir, status_check="fast"):
                 if aoh in ("key", "deep"):
                     if idkey_issues is None:
                         idkey_issues = spec.identity_key_issues(lp, rp, aoh_key)
+                    if idkey_issues & {"uninferable", "ambiguous"}:
+                        # no identity field can be inferred (a first record is {}), or the two documents suggest different
+                        # ones: what "matching by key" means here is not defined by the documentation
+                        col.out_of_scope("key-sync-identity-field-%s" % "+".join(sorted(idkey_issues & {"uninferable", "ambiguous"})))
+                        continue
                     if "duplicate" in idkey_issues and "bool-int" not in idkey_issues:
                         name = "key-sync-identity-value-duplicated"
                 if name != "key-sync-identity-value-duplicated" and (
